@@ -192,11 +192,12 @@ Definition state_clauses (o : ostate) : list string :=
   ++ flat_map (fun k => if oliab o (fst k) (snd k) <=? obal o (fst k) (snd k) then []
                         else ["insolvent:" +++ macc_name (fst k) +++ ":" +++ class_name (class_of (snd k))])
               (dedup2 (map (fun e => match e with (m, _, _, d, _) => (m, d) end) (o_rec o)))
-  (* every share token is redeemable under the pool's own redemption rule:
+  (* every share token is redeemable under the pool's own redemption rule.  Old rule (amount*(1-slashed)):
      supply(share) / (1 - slashed) <= staked  (one unit of rounding slack) *)
-  ++ flat_map (fun e => match e with (sd, (p, d)) =>
+  ++ (if undelegate_pro_rata then []       (* pro-rata redemption: redeemable by construction (C04_shares_redeemable) *)
+      else flat_map (fun e => match e with (sd, (p, d)) =>
                  if osup o sd * PREC <=? orec o MS K_STAKED p d * (PREC - oslashed o p) + PREC then []
-                 else ["insolvent:multistaking:share"] end) shmap
+                 else ["insolvent:multistaking:share"] end) shmap)
   (* no negative balance *)
   ++ flat_map (fun e => if 0 <=? snd e then [] else ["negative-balance"]) (o_bal o).
 
